@@ -175,3 +175,202 @@ func runC13Retry(c *core.Case, k int) {
 	c.Count("forwarded_commits", 0)
 	c.Distinct(fmt.Sprintf("retry-while-waiting/wal%v/n%d", wal, n))
 }
+
+func init() {
+	addFamily("C13", func(tier string) int {
+		if tier == "thorough" {
+			return 32
+		}
+		return 4
+	}, runC13HolderPromoted, " (+ the holder becomes primary: the replica that holds the halt lock is a candidate and takes the lease when the granting primary loses it; it is the primary now - its transactions must commit (or be refused without damage), the node must keep running and the former primary must follow it once its own grant has expired, counters promoted_*)")
+	chk := Registry["C13"]
+	base := chk.Floors
+	chk.Floors = func(tier string) map[string]int {
+		m := map[string]int{}
+		if base != nil {
+			for k, v := range base(tier) {
+				m[k] = v
+			}
+		}
+		m["promoted_holder_judged"] = 2
+		return m
+	}
+}
+
+func runC13HolderPromoted(c *core.Case, k int) {
+	wal := k%2 == 1
+	ps := []uint32{1024, 4096, 512}[k%3]
+	var mu sync.Mutex
+	blocked := map[string]bool{"n1": true}
+	tune := func(s *litefs.Store) {
+		s.HaltLockTTL = 1500 * time.Millisecond
+		s.HaltLockMonitorInterval = 50 * time.Millisecond
+	}
+	cl, err := cluster.New(c.Dir, []cluster.NodeOpts{{Candidate: true, Tune: tune}, {Candidate: true, Tune: tune}})
+	if err != nil {
+		c.Inconclusive(err.Error())
+		return
+	}
+	defer cl.Close()
+	cl.Svc.SetInject(func(node, op string) error {
+		mu.Lock()
+		defer mu.Unlock()
+		if op == "acquire" && blocked[node] {
+			return fmt.Errorf("scripted: acquire unavailable")
+		}
+		return nil
+	})
+	setBlocked := func(n string, v bool) { mu.Lock(); blocked[n] = v; mu.Unlock() }
+	if err := cl.Start(0); err != nil || cl.WaitPrimary(0, 10*time.Second) == nil {
+		c.Inconclusive("primary start")
+		return
+	}
+	A, R := cl.Nodes[0], cl.Nodes[1]
+	led := newLedger()
+	var hist []string
+	detail := func() map[string]any {
+		return map[string]any{"wal": wal, "page_size": ps, "history": hist, "n0": mon.PosOf(A.Node, "db").String(), "n1": mon.PosOf(R.Node, "db").String()}
+	}
+	wA, err := newWriter(A.Node, "db", ps, wal, "delete", nil, c.SubRng("wa"), led, 1)
+	if err != nil {
+		c.Violate("C13/setup", err.Error(), nil)
+		return
+	}
+	if err := wA.ensure(uint32(5 + c.Rng.IntN(5))); err != nil {
+		c.Violate("C13/setup", err.Error(), nil)
+		return
+	}
+	_, _ = wA.txn(2)
+	wA.close()
+	if err := cl.Start(1); err != nil {
+		c.Inconclusive(err.Error())
+		return
+	}
+	if ok, _, _ := cl.WaitConverged(A, R, []string{"db"}, 5, 30*time.Second); !ok {
+		c.Inconclusive("replica did not converge")
+		return
+	}
+	lf, err := R.Node.Open("db-lock")
+	if err != nil {
+		c.Violate("C13/setup", "open lock file: "+err.Error(), detail())
+		return
+	}
+	defer lf.Release()
+	lctx, cancel := context.WithTimeout(context.Background(), 10*time.Second)
+	err = lf.LockWait(lctx, 41, 72, 72, true)
+	cancel()
+	if err != nil {
+		c.Violate("C13/acquire-failed", err.Error(), detail())
+		return
+	}
+	hist = append(hist, "n1 holds the halt lock")
+	img, _ := led.get("db", mon.PosOf(R.Node, "db"))
+	rw, err := newWriter(R.Node, "db", ps, wal, "delete", img, c.SubRng("rw"), led, 32)
+	if err != nil {
+		c.Violate("C13/setup", "writer on the holder: "+err.Error(), detail())
+		return
+	}
+	defer rw.close()
+	rw.d.BusyRetries = 2000
+	if err := rw.ensure(0); err != nil {
+		c.Violate("C13/forwarded-commit-failed", err.Error(), detail())
+		return
+	}
+	for try := 0; try < 10; try++ {
+		if ok, err := rw.txn(2); err != nil {
+			healthViolations(c, R.Node, "forwarded write", detail())
+			if !c.Violated() {
+				c.Violate("C13/forwarded-commit-failed", err.Error(), detail())
+			}
+			return
+		} else if ok {
+			break
+		}
+	}
+	hist = append(hist, "forwarded transaction committed")
+	// ---- the lease moves to the holder itself
+	setBlocked("n0", true)
+	setBlocked("n1", false)
+	if k%4 < 2 {
+		cl.Svc.Expire()
+	} else {
+		A.Store.Demote()
+	}
+	if cl.WaitPrimary(1, 20*time.Second) == nil {
+		c.Inconclusive("n1 did not become primary")
+		return
+	}
+	hist = append(hist, "n1 (the holder) is primary")
+	c.Count("promoted_holder_cases", 1)
+	// ---- the application on n1 writes on (it still believes it holds the lock byte)
+	before := mon.PosOf(R.Node, "db")
+	committed, werr := false, error(nil)
+	for try := 0; try < 10 && !committed && werr == nil; try++ {
+		committed, werr = rw.txn(2)
+	}
+	hist = append(hist, fmt.Sprintf("transaction on the new primary: committed=%v err=%v", committed, werr))
+	if healthViolations(c, R.Node, "transaction on the promoted holder", detail()) {
+		return
+	}
+	after := mon.PosOf(R.Node, "db")
+	if werr == nil && committed && after.TXID != before.TXID+1 {
+		c.Violate("C13/promoted-holder-commit-lost", fmt.Sprintf("the transaction on the new primary returned success but the position went %s -> %s", before, after), detail())
+		return
+	}
+	if werr != nil && after != before {
+		c.Violate("C13/promoted-holder-refused-but-published", fmt.Sprintf("the transaction was refused (%v) but the position went %s -> %s", werr, before, after), detail())
+		return
+	}
+	if werr == nil {
+		judgeRawChecksum(c, R.Node, "db", "promoted holder", detail())
+		if c.Violated() {
+			return
+		}
+	} else {
+		// (a refused rollback-journal commit: SQLite rolls its journal back)
+		_ = R.Store.DB("db").Recover(context.Background())
+		c.Count("promoted_holder_commit_refused", 1)
+	}
+	rw.close()
+	_ = lf.Unlock(41, 72, 72)
+	// ---- the primary can write (after the release at the latest) and n0 follows
+	imgR, ok := led.get("db", mon.PosOf(R.Node, "db"))
+	if !ok {
+		c.Violate("C13/primary-position-unknown", "n1 is at a position nobody committed: "+mon.PosOf(R.Node, "db").String(), detail())
+		return
+	}
+	w2, err := newWriter(R.Node, "db", ps, wal, "delete", imgR, c.SubRng("w2"), led, 5)
+	if err != nil {
+		c.Violate("C13/primary-writer", err.Error(), detail())
+		return
+	}
+	defer w2.close()
+	w2.d.BusyRetries = 4000
+	if err := w2.ensure(0); err == nil {
+		ok2 := false
+		for try := 0; try < 10 && !ok2 && err == nil; try++ {
+			ok2, err = w2.txn(2)
+		}
+	}
+	if err != nil {
+		healthViolations(c, R.Node, "write after the release", detail())
+		if !c.Violated() {
+			c.Violate("C13/primary-blocked-after-release", fmt.Sprintf("the holder became primary and released the halt lock, yet it cannot write: %v", err), detail())
+		}
+		return
+	}
+	okc, _, timedOut := cl.WaitConverged(R, A, []string{"db"}, 60, 60*time.Second)
+	if healthViolations(c, A.Node, "former primary", detail()) {
+		return
+	}
+	if timedOut {
+		c.Inconclusive("convergence watchdog")
+		return
+	}
+	if !okc {
+		c.Violate("C13/former-primary-never-rejoined", fmt.Sprintf("n0 is at %s, the primary n1 at %s", mon.PosOf(A.Node, "db"), mon.PosOf(R.Node, "db")), detail())
+		return
+	}
+	c.Count("promoted_holder_judged", 1)
+	c.Distinct(fmt.Sprintf("promoted/wal%v/committed%v/err%v", wal, committed, werr != nil))
+}
